@@ -1,7 +1,7 @@
 SPECIFICATION Spec
 CONSTANTS NTx = 3
           L1 = 2
-          L2 = 2
+          L2 = 1
           L3 = 1
           TopKeys = {"a", "b"}
           SubKeys = {"a"}
